@@ -7,9 +7,10 @@ CONSTANTS Focus,     \* keys that the sources may touch (a subset of the keys of
           MaxArgv,   \* command line items: 0..MaxArgv
           Emit
 
-KeySeq == <<"a", "l", "d", "g.x", "g.y", "s", "n">>
+KeySeq == <<"a", "l", "d", "g.x", "g.y", "s", "n", "my-list", "g.my-list">>
 \* "s" is a str key (value n stands for the text "s<n>", 0 for the EMPTY string), "n" an Optional[int] key (99999 = None)
-Kind(k) == CASE k = "l" -> "list" [] k = "d" -> "dict" [] k = "s" -> "str" [] k = "n" -> "optint" [] OTHER -> "int"
+\* "my-list" / "g.my-list": list options whose NAME contains a dash (dest my_list); the '+' form must work for them too
+Kind(k) == CASE k \in {"l", "my-list", "g.my-list"} -> "list" [] k = "d" -> "dict" [] k = "s" -> "str" [] k = "n" -> "optint" [] OTHER -> "int"
 Edge(k) == CASE Kind(k) = "str" -> {<<0>>} [] Kind(k) = "optint" -> {<<99999>>} [] OTHER -> {}      \* edge values: '' and None
 Defaults == [k \in {KeySeq[i] : i \in 1..Len(KeySeq)} |-> IF Kind(k) \in {"str", "optint"} THEN <<7>> ELSE <<0>>]   \* dict default {k0: 0} = << Enc(0, 0) >>
 
